@@ -54,9 +54,30 @@ type tr struct {
 	cur       string
 }
 
+// unsupported is what die panics with; each function is translated under a recover, so that one function
+// outside the supported subset leaves only ITS definition out (the Lean modules that name it then fail to
+// build, the others are unaffected).
+type unsupported string
+
+var failures []string
+
 func die(format string, a ...any) {
-	fmt.Fprintf(os.Stderr, "go2lean: unsupported: "+format+"\n", a...)
-	os.Exit(3)
+	panic(unsupported(fmt.Sprintf(format, a...)))
+}
+
+// guarded translates one definition; on an unsupported construct the definition is replaced by a comment.
+func guardedDef(what string, f func() string) (out string) {
+	defer func() {
+		if r := recover(); r != nil {
+			u, ok := r.(unsupported)
+			if !ok {
+				panic(r)
+			}
+			failures = append(failures, what+": "+string(u))
+			out = "-- TRANSLATION FAILED for " + what + ": " + strings.ReplaceAll(string(u), "\n", " ") + "\n"
+		}
+	}()
+	return f()
 }
 
 func (t *tr) pos(n ast.Node) string { return t.fset.Position(n.Pos()).String() }
@@ -901,11 +922,13 @@ func main() {
 	}
 	b.WriteString("\n")
 	for _, s := range specs {
-		b.WriteString(t.fn(s))
+		b.WriteString(guardedDef(s.key, func() string { return t.fn(s) }))
 		b.WriteString("\n")
 	}
 	b.WriteString("end BloomVerif.Gen\n")
 	writeSinks(fset, files, *out)
+	writeTrees(t, *out)
+	writeGuard(t, *out)
 	if err := os.MkdirAll(*out, 0o755); err != nil {
 		fmt.Fprintln(os.Stderr, err)
 		os.Exit(2)
@@ -913,6 +936,13 @@ func main() {
 	if err := os.WriteFile(filepath.Join(*out, "Leaf.lean"), []byte(b.String()), 0o644); err != nil {
 		fmt.Fprintln(os.Stderr, err)
 		os.Exit(2)
+	}
+	if len(failures) > 0 {
+		// the files are written (without the failed definitions); exit status 4 tells the caller
+		for _, f := range failures {
+			fmt.Fprintln(os.Stderr, "go2lean: unsupported: "+f)
+		}
+		os.Exit(4)
 	}
 }
 
